@@ -40,7 +40,7 @@ THOROUGH = dict(cap1=250, rnd1=50, n2=80, cap2=60, rnd2=6, bound=3, procs=8)
 
 NEEDED_ACTIONS = ["NextOp", "SchedCall", "SchedEnqueue", "SchedAssign", "SchedRet", "DispCall", "CancelPop", "CancelSet",
                   "DispMarshal", "DispAwait", "DispRet", "CancelDone", "PostDispose", "Wake", "RunInterval", "Stage2Timer", "Stage2Assign",
-                  "LoopStart", "Poll", "RunOnce", "Pop", "IterEnd", "Enter", "CbEnd", "LoopIdle", "LoopStop", "Tick",
+                  "LoopStart", "Poll", "RunOnce", "Pop", "IterEnd", "Enter", "CbEnd", "LoopIdle", "LoopStop", "LoopPause", "Tick",
                   "Finished"]
 
 
